@@ -26,6 +26,10 @@ class _Opaque:
 OPAQUE = register("subst_opaque", _Opaque())
 UNCONVERTIBLE = [OPAQUE, (1, 2), register("subst_set", {1}),
                  uuid.UUID("51c2f442-bf61-11f1-b9da-02fc00000001"), 1 + 2j, bytearray(b"x")]
+import datetime as _dt  # noqa: E402
+
+DT_END_AWARE = _dt.datetime(9999, 12, 31, 23, 0, tzinfo=_dt.timezone(_dt.timedelta(hours=-5)))
+DT_START_AWARE = _dt.datetime(1, 1, 1, 0, 30, tzinfo=_dt.timezone(_dt.timedelta(hours=3)))
 # mappings that are not dicts (read-only view, layered lookup): not plain data
 NON_DICT_MAPPINGS = [types.MappingProxyType({"a": 1}), collections.ChainMap({"a": 1}, {"b": 2})]
 
@@ -148,6 +152,16 @@ def subst_values(t, tier, placeholders=True):
     for w in ws[:4]:
         out += _float_leaf_variants(w, (1 + 5e-10, 1 - 5e-10))     # inside the tolerance band
     out += [OPAQUE, (1, 2)]
+    # aware datetimes within their UTC offset of the ends of the representable range
+    for z in (DT_END_AWARE, DT_START_AWARE):
+        out.append(z)
+        for w in ws[:1]:
+            out += inject(w, z, max_out=4)
+    for w in ws[:1]:
+        if isinstance(w, list):
+            # sixty members, every one of the wrong kind (more errors than any message cap)
+            out.append(["q" if not isinstance(w[0] if w else 0, str) else 0] * 60)
+            out.append([{"zz": None}] * 60)
     for z in NON_DICT_MAPPINGS:
         out.append(z)
         for w in ws[:1]:
